@@ -30,9 +30,9 @@ pub struct PairCase {
     pub flips: Vec<usize>,
 }
 
-fn zero_gen(ty: Ty) -> Result<Box<dyn Gen>, Fail> {
+/// the zero-state generator through Deserialize; `None` where Deserialize refuses that state
+fn zero_gen(ty: Ty) -> Option<Box<dyn Gen>> {
     adapter::from_state_bytes(ty, &vec![0u8; ty.info().seed_len])
-        .ok_or_else(|| Fail::inconclusive("C08:no-zero-observation", "cannot build the zero-state generator through Deserialize"))
 }
 
 fn xorshift_replacement() -> Vec<u8> {
@@ -45,8 +45,12 @@ fn xorshift_replacement() -> Vec<u8> {
 
 fn not_zero(ty: Ty, g: &dyn Gen, how: &str) -> Result<(), Fail> {
     let info = ty.info();
-    let z = zero_gen(ty)?;
-    if g.eq_dyn(&*z) != Some(false) {
+    let in_zero_state = match zero_gen(ty) {
+        Some(z) => g.eq_dyn(&*z) != Some(false),
+        // not constructible: inspect the (validated) serde image of the generator itself
+        None => adapter::observe_state(g).map(|img| img.iter().all(|&b| b == 0)).unwrap_or(false),
+    };
+    if in_zero_state {
         return Err(Fail::new(format!("C08:zero-state:{}:{}", info.name, how), format!("{} returned a generator equal to the all-zero-state generator", how)));
     }
     let mut c = g.clone_box();
